@@ -529,7 +529,9 @@ def rule_checked_conversions(E, R):
                 src = _try_inner(st["init"])
                 root, ch = chain(src)
                 ms = [x["m"] for x in ch]
-                ok = ms[:1] == ["try_into"] and "map_err" in ms and src is not strip(st["init"])
+                # (the counted value may itself be the end of a chain: only what follows try_into matters)
+                ok = "try_into" in ms and "map_err" in ms[ms.index("try_into"):] and src is not strip(st["init"]) and \
+                    all(m_ in ("map_err",) for m_ in ms[ms.index("try_into") + 1:])
         R.check(ok, rule, fn, "hash count converted with try_into::<u8>()?, more than 255 -> error", where=h["span"])
 
 
